@@ -175,6 +175,26 @@ func main() {
 			{Op: "remove", Key: 3},
 			{Op: "cleanup"},
 		}},
+		// deep remote chain (7 layers): Mounts / View / Prepare on top with the Check of one layer failing, at depth 1,
+		// 4, 5, 6, 7 (counted from the nearest parent), and with none failing
+		{Ops: []snapx.Op{
+			{Op: "prepare", Key: 9, Parent: -1, L: L(10), MOK: true},
+			{Op: "prepare", Key: 9, Parent: 10, L: L(11), MOK: true},
+			{Op: "prepare", Key: 9, Parent: 11, L: L(12), MOK: true},
+			{Op: "prepare", Key: 9, Parent: 12, L: L(13), MOK: true},
+			{Op: "prepare", Key: 9, Parent: 13, L: L(14), MOK: true},
+			{Op: "prepare", Key: 9, Parent: 14, L: L(15), MOK: true},
+			{Op: "prepare", Key: 9, Parent: 15, L: L(16), MOK: true},
+			{Op: "prepare", Key: 0, Parent: 16, L: L(-1), MOK: true},
+			{Op: "mounts", Key: 0, CBad: []int{7}},
+			{Op: "mounts", Key: 0, CBad: []int{4}},
+			{Op: "mounts", Key: 0, CBad: []int{3}},
+			{Op: "mounts", Key: 0, CBad: []int{2}},
+			{Op: "mounts", Key: 0, CBad: []int{1}},
+			{Op: "view", Key: 1, Parent: 16, L: L(-1), CBad: []int{1}},
+			{Op: "prepare", Key: 2, Parent: 16, L: L(-1), MOK: true, CBad: []int{2}},
+			{Op: "mounts", Key: 0},
+		}},
 		// cleanup before anything was ever created; errors of create
 		{Ops: []snapx.Op{
 			{Op: "cleanup"},
